@@ -450,8 +450,8 @@ def run_sweep(ctx, per_target, first_seed=0):
             if r['fresh'][0] == 'ok':
                 answered += 1
                 ctx.nontrivial.add(common.case_hash(case))
-                if not r.get('random'):
-                    fresh_pool.append((key, seed, r['fresh']))
+                if not r.get('random') and not r.get('timeout'):
+                    fresh_pool.append((key, seed, r['after']))
             for kind, text in r['problems']:
                 bad += 1
                 ctx.violations.append(dict(stream='sweep', case=dict(case, kind=kind), impl=text, model='n/a (implementation-side oracle)',
@@ -460,7 +460,7 @@ def run_sweep(ctx, per_target, first_seed=0):
     ctx.streams['sweep'] = dict(cases=len(tl) * per_target, deviations=bad, answered=answered)
     # a sample of the probes again, in a fresh interpreter
     rng = random.Random('fresh/%s' % ctx.seed)
-    sample = rng.sample(fresh_pool, min(len(fresh_pool), ctx.n(150, 1500)))
+    sample = rng.sample(fresh_pool, min(len(fresh_pool), ctx.n(2000, 6000)))
     try:
         got = sweep.fresh_process([(k, s) for k, s, _ in sample], common.REPO)
     except Exception as e:      # noqa
@@ -525,7 +525,7 @@ def explore(ctx, widen=1):
 def replay_sweep(ctx, case):
     ctx.evaluations += 1
     if case.get('kind') == 'fresh-process':
-        want = sweep.run_case(case['target'], case['seed'])['fresh']
+        want = sweep.run_case(case['target'], case['seed'])['after']
         got = sweep.fresh_process([(case['target'], case['seed'])], common.REPO)[0]
         if tuple(got) != tuple(want):
             ctx.violations.append(dict(stream='fresh-process', case=case, impl=str(want), model=str(got), why='fresh interpreter answers differently'))
